@@ -41,6 +41,17 @@ SINGLE_MOVE = [
     "7k/7P/7K/8/8/8/8/1q6 b - - 0 1",
     "k7/2Q5/8/8/8/8/8/7K b - - 0 1",
 ]
+MATE_IN_N = [
+    "6k1/5ppp/8/8/8/8/8/R5K1 w - - 0 1",                                    # mate in 1
+    "k7/8/1K6/8/8/8/8/7R w - - 0 1",                                         # mate in 1
+    "r1bqkb1r/pppp1ppp/2n2n2/4p2Q/2B1P3/8/PPPP1PPP/RNB1K1NR w KQkq - 4 4",   # mate in 1
+    "7k/8/5K2/8/8/8/8/6R1 w - - 0 1",                                        # mate in 2
+    "k7/2K5/8/8/8/8/8/1R6 b - - 0 1",                                        # mated in 1
+    "6k1/5ppp/8/8/8/8/5PPP/r5K1 w - - 0 1",                                  # is mated (checkmate root)... classified by the oracle
+    "8/8/8/8/8/2k5/1q6/K7 w - - 0 1",                                        # checkmate
+    "8/8/8/8/8/1k6/3q4/K7 b - - 0 1",                                        # mate in 1 for black
+    "4k3/8/4K3/8/8/8/8/7Q w - - 0 1",                                        # mate in 1 (several)
+]
 ENDGAMES = ["KQk", "KRk", "Kkq", "Kkr", "KPk", "Kkp", "KBNk", "KQkq", "KQkr", "KRkr", "KRkb", "KRkn", "KPkp",
             "KQkp", "KBkn", "KNNk", "KBBk", "Kk", "KNk", "KRkp", "KQQk", "KRRk", "Kkbn", "KBkb"]
 
@@ -93,8 +104,11 @@ def random_endgame(rng):
 
 def gen_position(rng, kind=None):
     """Returns dict(kind, cmd, pos) where cmd is the UCI position command and pos the oracle position."""
-    kind = kind or rng.choice(["game", "game", "game", "game", "gamefen", "mate", "stalemate", "single",
+    kind = kind or rng.choice(["game", "game", "game", "game", "gamefen", "mate", "stalemate", "single", "matein",
                                "fifty", "fifty", "endgame", "endgame", "endgame"])
+    if kind == "matein":
+        fen = rng.choice(MATE_IN_N)
+        return dict(kind=kind, cmd="position fen " + fen, pos=ch.parse_fen(fen))
     if kind == "game":
         mv, pos = random_game(rng, rng.choice([0, 1, 2, 6, 10, 20, 30, 40, 60, 80, 120]))
         return dict(kind=kind, cmd="position startpos" + (" moves " + " ".join(mv) if mv else ""), pos=pos)
@@ -191,26 +205,39 @@ DEFAULTS = {"Hash": 16, "Threads": 1, "MultiPV": 1, "Strength": 1000, "UCI_Limit
             "MaxNPS": 0, "UseNullMove": "true", "UCI_AnalyseMode": "false", "Contempt": 0, "AnalyzeContempt": 0}
 
 
+def nps_cap(opts):
+    """Effective node-rate cap (EngineControl::getMaxNPS); None = unlimited."""
+    cap = int(opts.get("MaxNPS", 0)) or None
+    if str(opts.get("UCI_LimitStrength", "false")) == "true":
+        elo = int(opts.get("UCI_Elo", 1500))
+        c2 = 10000 if elo < 1350 else 100000 if elo < 2100 else 750000
+        cap = min(cap, c2) if cap else c2
+    return cap
+
+
 def is_slow(opts):
     """Configurations in which the engine throttles itself (sleeps): keep their limits small."""
-    return (int(opts.get("MaxNPS", 0)) > 0 or str(opts.get("UCI_LimitStrength", "false")) == "true"
-            or int(opts.get("Strength", 1000)) < 1000)
+    cap = nps_cap(opts)
+    return cap is not None and cap <= 20000
 
 
 def gen_limit(rng, opts, thorough, npieces):
     slow = is_slow(opts)
+    cap = nps_cap(opts) or 10 ** 9
     maxd = 12 if thorough else 8
-    kind = rng.choice(["depth", "depth", "depth", "nodes", "movetime", "clock", "mate", "infinite", "infinite",
-                       "ponder", "combo"])
+    kinds = ["depth", "depth", "depth", "nodes", "movetime", "clock", "mate", "infinite", "infinite", "ponder", "combo"]
+    if cap <= 2000:
+        kinds = ["nodes", "movetime", "infinite", "infinite", "clock"]      # anything else would take minutes
+    kind = rng.choice(kinds)
     stop_after = None
     ponderhit = None
     if kind == "depth":
-        d = rng.randint(1, 4 if slow else maxd)
+        d = rng.randint(1, 3 if slow else maxd)
         if npieces > 20 and d > 6 and not thorough:
             d = 6
         go = "go depth %d" % d
     elif kind == "nodes":
-        go = "go nodes %d" % rng.choice([1, 2, 10, 100, 1000, 3000] + ([] if slow else [20000, 100000]))
+        go = "go nodes %d" % rng.choice([n for n in [1, 2, 10, 100, 1000, 3000, 20000, 100000] if n <= 2 * cap])
     elif kind == "movetime":
         go = "go movetime %d" % rng.choice([1, 2, 10, 30, 100, 250])
     elif kind == "clock":
@@ -233,7 +260,7 @@ def gen_limit(rng, opts, thorough, npieces):
         else:
             stop_after = rng.choice([0, 5, 50, 150])
     else:
-        go = "go depth %d nodes %d" % (rng.randint(1, 4 if slow else maxd), rng.choice([50, 2000, 50000]))
+        go = "go depth %d nodes %d" % (rng.randint(1, 3 if slow else maxd), rng.choice([50, 2000, 50000]))
         if rng.random() < 0.5:
             go += " movetime %d" % rng.choice([20, 200])
     return dict(kind=kind, go=go, stop_after=stop_after, ponderhit=ponderhit)
@@ -289,9 +316,13 @@ def gen_session(rng, thorough, nsearch):
 # engine driver
 # ------------------------------------------------------------------------------------------------
 class Engine:
-    def __init__(self, exe):
+    def __init__(self, exe, env=None):
+        e = None
+        if env:
+            e = dict(os.environ)
+            e.update(env)
         self.p = subprocess.Popen([exe], stdin=subprocess.PIPE, stdout=subprocess.PIPE, stderr=subprocess.DEVNULL,
-                                  bufsize=0)
+                                  bufsize=0, env=e)
         self.buf = b""
         self.log = []          # transcript: (">"|"<", text)
 
@@ -366,9 +397,9 @@ def step_commands(step):
     return cmds
 
 
-def run_session(exe, session, per_search_timeout=60.0):
+def run_session(exe, session, per_search_timeout=60.0, env=None):
     """Runs all steps; returns list of per-step dict(lines=[engine output of the search], status=...)."""
-    eng = Engine(exe)
+    eng = Engine(exe, env=env)
     results = []
     try:
         eng.send("uci")
@@ -546,6 +577,8 @@ def classify_known(step, viol, prev_steps):
     """Key for a violation: the stale-searchmoves defect of `go ponder` gets its call-site key; everything
     else is keyed by the concrete failing input."""
     what = viol[0]
+    if str(step["opts_now"].get("OwnBook", "false")) == "true" and what == "bestmove-not-in-searchmoves":
+        return "EngineMainThread::doSearch:book-move-bypasses-searchmoves"
     if step["limit"] == "ponder" and what in ("bestmove-null-with-legal-moves", "bestmove-not-in-searchmoves",
                                               "pv-first-move-not-in-searchmoves", "currmove-not-a-root-move",
                                               "multipv-index-out-of-range"):
